@@ -15,6 +15,7 @@ Inductive hop := HEv (id : N) (flush : bool) (n : N) | HPlain (n : N) | HFlushAl
 Record gobs := {
   o_now : Z;                        (* what NowFunc returned during this call *)
   o_exp : Z;                        (* Filter.Expiration as the harness last set it before this call (an exported field: it may change between calls) *)
+  o_broker : bool;                  (* whether Filter.Broker was set at the time of this call (exported too: nil -> set, set -> another, set -> nil) *)
   o_res : N;                        (* 0 the very event came back unchanged, 1 (nil,nil) withheld, 2 composite, 3 error, 4 nil (FlushAll/Close) *)
   o_comp : list (N * N);            (* composite returned: the (id, number) of the events it was composed from *)
   o_compose : list (list (N * N));  (* arguments of the ComposeFrom calls made during the call, in order *)
@@ -22,6 +23,7 @@ Record gobs := {
   o_sent_gateable : bool;           (* some payload handed to Send was itself Gateable *)
   o_gated : list (N * (N * Z));     (* VerifGated after the call: (id, (#events, expiry)) in list order *)
   o_index_ok : bool;                (* VerifGated: the id index has exactly one entry per listed group, pointing at it *)
+  o_sent_stale : bool;              (* a payload reached a Sender that was not the filter's Broker at the time of the call *)
   o_mutated : bool                  (* some slice handed to ComposeFrom earlier (the harness composite keeps the very slice, no copy) no longer
                                        holds the events it held when it was handed over *)
 }.
@@ -36,6 +38,7 @@ Inductive kind :=
   | KEmptyId       (* observation-only, C11: an event without an id was not rejected *)
   | KSentGateable  (* observation-only, C11: a Gateable composite reached the Broker *)
   | KIndex         (* observation-only: the id index and the ordered list of groups disagree *)
+  | KSentStale     (* observation-only: a composite went to a Broker the Filter no longer (or not yet) had: the Broker field was cached *)
   | KCompositeMutated (* observation-only, C11: the events of a composite changed after it was built (its slice is shared with a later group) *)
   | KConc.         (* concurrent oracle *)
 
@@ -56,9 +59,9 @@ Definition env_of (c : gcfg) : env :=
                   else if negb (N.eqb (c_cgate_len c) 0) && N.eqb n (c_cgate_len c) then CGateable else COk;
      send_fails := fun k => negb (N.eqb (c_sfail c) 0) && N.eqb (N.succ k) (c_sfail c) |}.
 
-(* the configuration in force during a call: the case's, with the Expiration the filter had at that moment *)
+(* the configuration in force during a call: the case's fault oracles, with the Broker (set or not) and the Expiration the filter had at that moment *)
 Definition cfg_at (c : gcfg) (o : gobs) : gcfg :=
-  {| c_broker := c_broker c; c_exp := o_exp o; c_cfail_len := c_cfail_len c; c_cgate_len := c_cgate_len c; c_sfail := c_sfail c |}.
+  {| c_broker := o_broker o; c_exp := o_exp o; c_cfail_len := c_cfail_len c; c_cgate_len := c_cgate_len c; c_sfail := c_sfail c |}.
 
 Definition op_of (h : hop) (now : Z) : op :=
   match h with
@@ -125,6 +128,7 @@ Definition oracle (c : gcfg) (h : hop) (o : gobs) (st : ostate) : list kind * os
     (match h with HEv 0 _ _ => if N.eqb (o_res o) 3 && negb (nonempty (o_compose o)) then [] else [KEmptyId] | _ => [] end) ++
     (if o_sent_gateable o then [KSentGateable] else []) ++
     (if o_index_ok o then [] else [KIndex]) ++
+    (if o_sent_stale o then [KSentStale] else []) ++
     (if o_mutated o then [KCompositeMutated] else []) in
   (ks, {| os_composed := nums ++ os_composed st; os_pend := pend2 |}).
 
@@ -142,7 +146,7 @@ Fixpoint run_case (c : gcfg) (div : bool) (s : gst) (st : ostate) (i : N) (steps
         (if eq_list (eq_list pair_eqb) (composed_of new) (o_compose o) then [] else [KCompose]) ++
         (if eq_list (eq_list pair_eqb) (sent_of new) (o_sent o) then [] else [KSent]) ++
         (if eq_list gated_eqb (model_gated s') (o_gated o) then [] else [KGated]) in
-      let '(ks, st') := oracle c h o st in
+      let '(ks, st') := oracle (cfg_at c o) h o st in
       map (fun k => (i, opkind h, k)) (mm ++ ks) ++ run_case c (div || nonempty mm) s' st' (N.succ i) rest
   end.
 
